@@ -152,19 +152,42 @@ def build_universe(seed, tier):
         if t["k"] in ("struct", "enum") and rng.random() < 0.5:
             roots.append({"ty": T("vec", t=t, kind=rng.choice(TG.VECKINDS)), "vals": None, "tags": {"random", "vec"}})
     items += g.items
-    # values
+    # values: the fixed corpus gets seed-independent values (so golden files stay comparable), plus seeded ones
     nvals = 3 if tier == "quick" else 6
+    frng = random.Random(424242)
     for r in roots:
         t = r["ty"]
+        vr = frng if "fixed" in r["tags"] else rng
         if r["vals"] == "allvariants":
-            r["vals"] = TG.all_variants_vals(rng, t)
+            r["vals"] = TG.all_variants_vals(vr, t)
         elif r["vals"] == "vecallvariants":
-            vs = TG.all_variants_vals(rng, t["t"])
+            vs = TG.all_variants_vals(vr, t["t"])
             r["vals"] = [("seq", vs), ("seq", []), ("seq", vs + vs)]
         elif r["vals"] is None:
-            r["vals"] = [TG.gen_val(rng, t) for _ in range(nvals)]
+            r["vals"] = [TG.gen_val(vr, t) for _ in range(3)]
+            if "fixed" in r["tags"]:
+                r["nfixed"] = len(r["vals"])
+                r["vals"] += [TG.gen_val(rng, t) for _ in range(nvals - 2)]
+            else:
+                r["vals"] += [TG.gen_val(rng, t) for _ in range(max(0, nvals - 3))]
             if t["k"] == "enum":
                 r["vals"] += TG.all_variants_vals(rng, t)
+        if "nfixed" not in r:
+            r["nfixed"] = len(r["vals"]) if "fixed" in r["tags"] else 0
+    # known class K13 (mixed field-less / data variants under an explicit repr, reached through a bulk path):
+    # tag such roots so that only the checks owning that finding (C02, C04) look at their bytes
+    def is_mixed(t):
+        return (t["k"] == "enum" and t.get("repr") is not None and any(v["fields"] for v in t["variants"])
+                and any(not v["fields"] for v in t["variants"]))
+    for r in roots:
+        hit = []
+
+        def visit(t, hit=hit):
+            if t["k"] in ("vec", "array"):
+                TG.walk_types(t["t"], lambda u: hit.append(1) if is_mixed(u) else None)
+        TG.walk_types(r["ty"], visit)
+        if hit:
+            r["tags"].add("k13bulk")
     # dedupe roots by rust type
     seen, out = {}, []
     for r in roots:
